@@ -35,6 +35,7 @@ inductive QOp where
   | retainMutAppend (x : Str)       -- `retain_mut(|k, v| { v.push_str(x); k.len() % 2 == 1 })`
   | clear
   | len
+  | eqFresh                        -- the collection against `try_from_iter` of its own pairs and against its clone: ==, hash, cmp
   | iter
   | riter
   | ends                            -- `next()` / `next_back()` alternately until exhausted
@@ -172,6 +173,7 @@ def Quals.step (U : UnicodeOps) (q : Quals) : QOp → Res PErr (QOut × Quals)
     .ok (.unit, (q.map fun kv => (kv.1, kv.2 ++ x)).filter fun kv => (utf8 kv.1).length % 2 == 1)
   | .clear => .ok (.unit, [])
   | .len => .ok (.nat q.length q.isEmpty, q)
+  | .eqFresh => .ok (.bool true, q)   -- a collection IS its content: same content, same value
   | .iter => .ok (.pairs q, q)
   | .riter => .ok (.pairs q.reverse, q)
   | .ends => .ok (.pairs (endsAux q.length q), q)
